@@ -22,4 +22,6 @@ def run(col, configs, tier):
         guarded(col, X.rule_grisu_boundaries, facts)
         guarded(col, X.rule_dragonbox_left_endpoint, facts)
         guarded(col, X.rule_grisu_margins, facts)
+        guarded(col, X.rule_nearest_shorter_left_endpoint, facts)
+        guarded(col, X.rule_grisu_mul_rounds, facts)
         guarded(col, X.rule_jeaiii, facts)
